@@ -654,6 +654,11 @@ func (ex *Exec) lockOp(st *State, p Value, site ssa.Instruction, op string) {
 		if st.dead() {
 			return
 		}
+		// recursive read locking: sync.RWMutex blocks new readers once a writer waits, so a thread that re-acquires a
+		// read lock it already holds deadlocks whenever a writer arrives in between (reported; execution continues)
+		if c := And(st.pcTerm(), readers); !c.IsFalse() {
+			ex.blocks = append(ex.blocks, Event{Kind: "recursive RLock of " + name + " (deadlocks when a writer waits in between)", PC: c, Pos: ex.pos(site), Case: ex.curCase, Msg: ex.heldLocks(st)})
+		}
 		ex.store(st, rp, Add(r, BV(32, 1)))
 	case "RUnlock":
 		ex.panicIf(st, Not(readers), "sync: RUnlock of unlocked RWMutex "+name, site)
